@@ -57,7 +57,19 @@ type WdCase struct {
 	Stale [][]string `json:"stale"`
 }
 
+type ClampCase struct {
+	P int `json:"p"`
+}
+
+type ClampObs struct {
+	P       int    `json:"p"`
+	Workers []int  `json:"workers"` // per pool (sync, async) of a service built by the constructor
+	Landed  bool   `json:"landed"`
+	Note    string `json:"note,omitempty"`
+}
+
 type CasesIn struct {
+	Clamp      []ClampCase `json:"clamp"`
 	Nodes      []string    `json:"Nodes"`
 	AsyncNodes []string    `json:"AsyncNodes"`
 	Kinds      []string    `json:"Kinds"`
@@ -85,6 +97,8 @@ type WdObs struct {
 }
 
 type CasesOut struct {
+	Clamp  []ClampObs `json:"clamp"`
+	ZeroW  string     `json:"zero_workers_direct"` // InsertServiceV2Multimodal{SvcNum: 0} built without the constructor
 	Route  []RouteObs `json:"route"`
 	Wd     []WdObs    `json:"wd"`
 	Infra  []string   `json:"infra"`
@@ -151,6 +165,54 @@ func svcCase(in *CasesIn, c RouteCase, rnd *rand.Rand) RouteObs {
 	}
 	sort.Strings(obs.Landed)
 	return obs
+}
+
+// clampCase: the constructor with ParallelNum = p; how many workers does a pool get, and does a push land
+func clampCase(c ClampCase) ClampObs {
+	w := NewWorld([]string{"n1"}, map[string]bool{}, []string{"spl"}, c.P, time.Hour, true, 30)
+	defer w.Close()
+	s := w.Svcs["n1/spl"]
+	obs := ClampObs{P: c.P}
+	func() {
+		defer func() {
+			if r := recover(); r != nil {
+				obs.Note = fmt.Sprint("panic: ", r)
+			}
+		}()
+		w.Init(s)
+		obs.Workers = []int{len(poolWorkers(s.MM.SyncService)), len(poolWorkers(s.MM.AsyncService))}
+		for _, m := range []string{"sync", "async"} {
+			s.src[m].setFloat(3, 4, true)
+		}
+		p := s.I.Request(mkReq("z", "spl", 1), service.INSERT_MODE_SYNC)
+		for _, wk := range w.Workers {
+			select {
+			case e := <-wk.Events:
+				obs.Landed = obs.Landed || (e.Ev == service.VerifEvAppend && e.Promise == p)
+			default:
+			}
+		}
+	}()
+	return obs
+}
+
+// zeroWorkersDirect: the exported struct built WITHOUT the constructor with SvcNum = 0 (outside the envelope of the
+// spec: reported as an observation, never as a verdict)
+func zeroWorkersDirect() (res string) {
+	defer func() {
+		if r := recover(); r != nil {
+			res = fmt.Sprint("panic: ", r)
+		}
+	}()
+	wworld.InitPools()
+	base := impl.NewSamplesInsertService(model.InsertServiceOpts{Session: fakech.NewWorld().Factory(), Node: node("n1", false, 30), Interval: time.Hour,
+		ParallelNum: 1}).(*service.InsertServiceV2Multimodal)
+	mm := &service.InsertServiceV2Multimodal{V3Session: base.V3Session, DatabaseNode: base.DatabaseNode, PushInterval: time.Hour, InsertRequest: base.InsertRequest,
+		AcquireColumns: base.AcquireColumns, ProcessRequest: base.ProcessRequest, SvcNum: 0, ServiceType: "samples"}
+	mm.Init()
+	st := mm.GetState(service.INSERT_MODE_SYNC)
+	mm.Request(mkReq("z", "spl", 1), service.INSERT_MODE_SYNC)
+	return fmt.Sprintf("no panic (GetState = %s)", stateName(st))
 }
 
 // ---- child plumbing: one JSON document on stdin, one marked JSON line on stdout
@@ -532,6 +594,10 @@ func cmdCases(inPath, outPath string, seed int64) int {
 	for _, c := range in.Route {
 		out.Route = append(out.Route, svcCase(&in, c, rnd))
 	}
+	for _, c := range in.Clamp {
+		out.Clamp = append(out.Clamp, clampCase(c))
+	}
+	out.ZeroW = zeroWorkersDirect()
 	var wg sync.WaitGroup
 	var mu sync.Mutex
 	wg.Add(2)
